@@ -17,7 +17,10 @@ import (
 var anchors = []time.Time{
 	time.Date(2020, 1, 1, 12, 0, 0, 0, time.UTC),
 	time.Date(2021, 6, 30, 23, 59, 59, 0, time.UTC),
+	time.Date(2020, 1, 1, 12, 0, 0, 1, time.UTC), // anchors[0] plus one nanosecond; only shapes that ask for three anchors draw it
 }
+
+const baseAnchors = 2
 
 type dspec struct {
 	sb, pb, ob byte
@@ -35,7 +38,7 @@ func symData(name string, temporal bool) *dspec {
 	if temporal {
 		d.pk = verif.Choice(name+".pk", 2)
 		if d.pk == 1 {
-			d.pa = verif.Choice(name+".pa", len(anchors))
+			d.pa = verif.Choice(name+".pa", baseAnchors)
 		}
 	}
 	d.ok = verif.Choice(name+".ok", 2)
